@@ -935,6 +935,35 @@ def pb_m_outcome_without_baseline(spec, wb, rng, ps):
     return False
 
 
+def pb_m_effect_heading(kind):
+    """the heading of an outcome column that holds a value is not a program: an undefined name, or the (defined) name of a
+    population, a compartment or a parameter"""
+
+    def f(spec, wb, rng, ps):
+        progs = {p_["name"] for p_ in ps["programs"]}
+        name = {"undefined": "ghost", "population": spec["pops"][0], "compartment": _ords(spec)[0], "parameter": ([p_["name"] for p_ in spec["pars"] if p_.get("targetable")] or [None])[0]}[kind]
+        if name is None:
+            return False
+        ws = wb["Program effects"]
+        hdr_row = None
+        for r in range(1, ws.max_row + 1):
+            vals = [ws.cell(r, c).value for c in range(1, ws.max_column + 1)]
+            if any(isinstance(v, str) and v.lower().startswith("baseline") for v in vals):
+                hdr_row = r
+                continue
+            if hdr_row is not None and all(v is None for v in vals):
+                hdr_row = None
+                continue
+            if hdr_row is not None:
+                for c in range(1, ws.max_column + 1):
+                    if ws.cell(hdr_row, c).value in progs and isinstance(ws.cell(r, c).value, (int, float)):
+                        ws.cell(hdr_row, c).value = name
+                        return True
+        return False
+
+    return f
+
+
 PB_MUTATIONS = [
     ("progbook:program-without-targets", "reject", pb_m_no_targets),
     ("progbook:reserved-program-name", "reject", pb_m_reserved_name),
@@ -945,6 +974,10 @@ PB_MUTATIONS = [
     ("progbook:text-in-spending-cell", "reject", pb_m_text_spend),
     ("progbook:wrong-workbook-kind", "reject", pb_m_wrong_kind),
     ("progbook:unknown-effect-parameter", "reject", pb_m_unknown_effect_par),
+    ("progbook:outcome-column-heading-is-not-a-program[undefined]", "reject", pb_m_effect_heading("undefined")),
+    ("progbook:outcome-column-heading-is-not-a-program[population]", "reject", pb_m_effect_heading("population")),
+    ("progbook:outcome-column-heading-is-not-a-program[compartment]", "reject", pb_m_effect_heading("compartment")),
+    ("progbook:outcome-column-heading-is-not-a-program[parameter]", "reject", pb_m_effect_heading("parameter")),
     ("progbook:outcome-without-baseline", "reject", pb_m_outcome_without_baseline),
 ]
 
